@@ -312,7 +312,7 @@ def driver_lines(case):
         elif k == 'ack':
             lines.append('ack %d' % (1 if op[1] else 0))
         elif k == 'conf':
-            lines.append('conf ' + (';'.join('%d:%s' % (IDX[tab.real(key)], '.'.join(hexs(v) for v in vals) or '-') for key, vals in op[1]) or '-'))
+            lines.append('conf ' + (';'.join('%d:%s' % (IDX[tab.real(key)], '.'.join('e' if v == '' else hexs(v) for v in vals) or '-') for key, vals in op[1]) or '-'))
         lines += reads_lines(tab)
     return lines, marks
 
